@@ -67,6 +67,13 @@ pub enum Step {
         target: usize,
         body: Body,
     },
+    /// two in-actor asks awaited concurrently (`join!`) from one hook
+    JoinAsk {
+        t1: usize,
+        b1: Body,
+        t2: usize,
+        b2: Body,
+    },
     HoldRef(usize),
     DropHeld(usize),
     /// spin for this many wall-clock microseconds (metrics lower bound)
